@@ -54,6 +54,8 @@ class Interp(object):
         self.atoms = list(atoms)
         self.effects = list(effects)
         self.ignore = list(ignore)
+        self.bool_vars = True
+        self.skip = None           # optional predicate: statements for which skip(st) is true are not interpreted
         self.iters = list(iters)   # (pattern on the iterable, callable(env, state, trace) -> list of abstract elements)
         self.max_loop = max_loop
 
@@ -94,6 +96,8 @@ class Interp(object):
                     return False
                 left = right
             return True
+        if isinstance(node, ast.Name) and node.id in state.get('bvars', {}):
+            return state['bvars'][node.id]
         for pattern, fn in self.atoms:
             env = pm.match(pattern, node)
             if env is not None:
@@ -104,7 +108,35 @@ class Interp(object):
                             'interpreter knows' % (loc(node), src(node), self.fn.name))
 
     # -- statements ----------------------------------------------------------
+    def _bool_assign(self, st, state, trace):
+        '''NAME = <condition> / NAME |= <condition> / NAME &= <condition> on boolean flags'''
+        if not self.bool_vars:
+            return False
+        if isinstance(st, ast.Assign) and len(st.targets) == 1 and isinstance(st.targets[0], ast.Name):
+            name, op, value = st.targets[0].id, None, st.value
+        elif isinstance(st, ast.AugAssign) and isinstance(st.target, ast.Name) and \
+                isinstance(st.op, (ast.BitOr, ast.BitAnd)):
+            name, op, value = st.target.id, st.op, st.value
+        else:
+            return False
+        looks_boolean = isinstance(value, (ast.Compare, ast.BoolOp)) or \
+            (isinstance(value, ast.UnaryOp) and isinstance(value.op, ast.Not)) or \
+            (isinstance(value, ast.Constant) and isinstance(value.value, bool))
+        if not looks_boolean:
+            return False
+        v = self.cond(value, state, trace)
+        bv = state.setdefault('bvars', {})
+        if op is None:
+            bv[name] = v
+        elif isinstance(op, ast.BitOr):
+            bv[name] = bv.get(name, False) or v
+        else:
+            bv[name] = bv.get(name, False) and v
+        return True
+
     def _effect(self, st, state, trace):
+        if self._bool_assign(st, state, trace):
+            return True
         for pattern, fn in self.effects:
             env = pm.match(pattern, st)
             if env is not None:
@@ -180,12 +212,16 @@ class Interp(object):
             raise _Continue()
         if self._effect(st, state, trace):
             return
+        if self.skip is not None and self.skip(st):
+            return
+        if is_logging_stmt(st):
+            return
         raise AnalysisError('%s: statement `%s` in %s is outside the idioms the abstract '
                             'interpreter knows' % (loc(st), src(st).split('\n')[0], self.fn.name))
 
-    def run(self, state):
+    def run(self, state, body=None):
         trace = []
-        body = self.fn.body
+        body = body if body is not None else self.fn.body
         try:
             self.block(body, state, trace)
         except _Done as d:
